@@ -18,10 +18,10 @@ LEVEL = "exploration"
 COMP = "lock"
 
 ASIS = {  # name -> (Fixed, JudgeHandedOut, OnlyComps, invariant expected to fail)
-    "queue-distributor-len": ('{"set-producer-lock", "set-equal-other", "collector-resolve-copy"}', "FALSE", '{"queue"}', "Lockset"),
-    "broker-stats-on-queue": ('{"set-producer-lock", "set-equal-other", "collector-resolve-copy"}', "FALSE", '{"broker.queue"}', "NoConcurrentConflict"),
-    "set-producer-lock": ('{"queue-distributor-len", "set-equal-other", "collector-resolve-copy"}', "FALSE", '{"set"}', "NoConcurrentConflict"),
-    "set-equal-other": ('{"queue-distributor-len", "set-producer-lock", "collector-resolve-copy"}', "FALSE", '{"set"}', "HelperGuard"),
+    "queue-distributor-len": ('{"set-producer-lock", "set-equal-other", "collector-resolve-copy"}', "TRUE", '{"queue"}', "Lockset"),
+    "broker-stats-on-queue": ('{"set-producer-lock", "set-equal-other", "collector-resolve-copy"}', "TRUE", '{"broker.queue"}', "NoConcurrentConflict"),
+    "set-producer-lock": ('{"queue-distributor-len", "set-equal-other", "collector-resolve-copy"}', "TRUE", '{"set"}', "NoConcurrentConflict"),
+    "set-equal-other": ('{"queue-distributor-len", "set-producer-lock", "collector-resolve-copy"}', "TRUE", '{"set"}', "HelperGuard"),
     "collector-resolve-copy": ('{"queue-distributor-len", "set-producer-lock", "set-equal-other"}', "TRUE", '{"collector"}', "Lockset"),
 }
 
@@ -352,7 +352,7 @@ def body(rep, tier, seed, p, late, lap):
     # ---- observer 2: guard probes (only when the repository carries the hooks)
     probes_ok = 0
     if guard_bin is None:
-        rep.cov["guard_probes"] = "not available: " + why_not + " (fixes/hook-c13-guard-probes.diff not applied); nothing is concluded from the probes"
+        rep.cov["guard_probes"] = "not available: " + why_not + " (fixes/hook-c13-guard-probes.addonly.diff not applied); nothing is concluded from the probes"
     else:
         rc, outs, err = harness.run(guard_bin, ["selftest", "probe"], None, timeout=60)
         pr = {e["point"]: e for o in outs for e in (o.get("probes") if isinstance(o.get("probes"), list) else [])}
